@@ -33,9 +33,23 @@ def utf8Enc : List Nat → Bytes
      else if c < 0x10000 then [0xE0 + c / 4096, 0x80 + (c / 64) % 64, 0x80 + c % 64]
      else [0xF0 + c / 262144, 0x80 + (c / 4096) % 64, 0x80 + (c / 64) % 64, 0x80 + c % 64]) ++ utf8Enc cs
 
+/-- `dump_code3`: type code, the integer fields as 32-bit words (co_posonlyargcount only when
+    the object has one), the object fields in marshal.c's order; `fields` are the already
+    dumped object fields, in the order of the `.code` association list -/
+def assembleCode (fs : List (String × V)) (dumped : List Bytes) : Bytes :=
+  match fs, dumped with
+  | [("co_argcount", .int a), ("co_posonlyargcount", pos), ("co_kwonlyargcount", .int k), ("co_nlocals", .int nl),
+     ("co_stacksize", .int ss), ("co_flags", .int fl), ("co_code", _), ("co_consts", _), ("co_names", _),
+     ("co_varnames", _), ("co_freevars", _), ("co_cellvars", _), ("co_filename", _), ("co_name", _),
+     ("co_firstlineno", .int first), ("co_linetable", _)],
+    [_, _, _, _, _, _, dcode, dconsts, dnames, dvarnames, dfree, dcell, dfilename, dname, _, dlt] =>
+      [99] ++ wLong a ++ (match pos with | .int p => wLong p | _ => []) ++ wLong k ++ wLong nl ++ wLong ss ++ wLong fl ++
+      dcode ++ dconsts ++ dnames ++ dvarnames ++ dfree ++ dcell ++ dfilename ++ dname ++ wLong first ++ dlt
+  | _, _ => []          -- 3.11+ layouts and anything else: dump_code3 raises / is not modelled
+
 mutual
-/-- `_Marshaller.dump(x)` for plain values (`V` without code objects; floats carry their
-    repr text, the writer's own choice of encoding) -/
+/-- `_Marshaller.dump(x)` (`V` with floats carrying their repr text, the writer's own choice of
+    encoding; code objects of the 3.0–3.10 layout through dump_code3) -/
 def dump : V → Bytes
   | .none => [78] | .tru => [84] | .fls => [70] | .ellipsis => [46] | .stopIter => [83]
   | .int i => dumpLong i
@@ -52,13 +66,16 @@ def dump : V → Bytes
   | .set xs => [60] ++ wLong xs.length ++ dumpList xs
   | .fset xs => [62] ++ wLong xs.length ++ dumpList xs
   | .dict kvs => [123] ++ dumpKVs kvs ++ [48]
-  | .code _ => []
+  | .code fs => assembleCode fs (dumpFields fs)
 def dumpList : List V → Bytes
   | [] => []
   | x :: xs => dump x ++ dumpList xs
 def dumpKVs : List (V × V) → Bytes
   | [] => []
   | (k, v) :: rest => dump k ++ dump v ++ dumpKVs rest
+def dumpFields : List (String × V) → List Bytes
+  | [] => []
+  | (_, v) :: rest => dump v :: dumpFields rest
 end
 
 end XV.Model.Marsh
